@@ -12,6 +12,7 @@ CONSTANTS NRows = 2
  CntBitsRC = 3
  CntBitsRAS = 2
  AutoPre = TRUE
+ RefWaitsTras = TRUE
  tRFC = 2
  WL = 1
  BLCK = 1
